@@ -192,6 +192,7 @@ func runC04(c *Ctx, r *Rec) {
 	checkNoBlockingUnderLock(c, r, "D3-no-blocking-under-lock", qr)
 	checkNoReentryUnderLock(c, r, "D3-no-reentry-under-lock", qr)
 	checkNoSendUnderPlainLock(c, r, "D3-no-send-under-plain-lock", qr)
+	checkChannelReplacedOnlyByReset(c, r, "D4-channel-replaced-only-by-reset", qr)
 	checkGuardedReferenceStaysInside(c, r, "D1-guarded-reference-stays-inside", qr)
 	r.floor("D2-lock-pairing", 1)
 	r.floor("D3-no-blocking-under-lock", 1)
@@ -535,6 +536,7 @@ func runC05(c *Ctx, r *Rec) {
 	checkNoBlockingUnderLock(c, r, "D4-no-wait-under-lock", qr)
 	checkNoReentryUnderLock(c, r, "D4-no-reentry-under-lock", qr)
 	checkNoSendUnderPlainLock(c, r, "D4-no-send-under-plain-lock", qr)
+	checkChannelReplacedOnlyByReset(c, r, "D3-channel-replaced-only-by-reset", qr)
 	checkTokenBalanceAtBirth(c, r, "D2-token-balance", qr)
 	// outputs of the plumbing helpers are closed when the input is (parked consumers are released)
 	{
